@@ -12,6 +12,7 @@ import PercevalModel.Lemmas.C11Lists
 import PercevalModel.Lemmas.C11More
 import PercevalModel.Lemmas.C11Adj
 import PercevalModel.Lemmas.C11Copy
+import PercevalModel.Lemmas.C11Heur
 import PercevalModel.Props.C01
 import PercevalModel.Num.GQ
 
@@ -336,9 +337,8 @@ theorem simplify_perm_sound {P : Type} [CommRing R] (ι : Interp P R) {m : ℕ} 
 
 /-- **one iteration of `simplify`** (append the component, run `_simplify_comp`) leaves the matrix
 unchanged, whatever the rounding of the drop test and whatever valid choice of the heuristic.
-NOT PROVED: that the heuristic `_generate_compatible_perm` always *produces* a valid choice (a
-sufficient condition is `simplify_perm_choice_valid_partial` in section G); the correspondence
-evaluates `validChoice` on every choice it observes. -/
+That the heuristic `_generate_compatible_perm` always *produces* a valid choice is
+`simplify_perm_choice_valid` (section H); `simplify_sound` there is the unconditional fold. -/
 theorem simplify_step_sound {P : Type} [CommRing R] [PhaseAlg P] (ι : Interp P R)
     (hadd : ∀ a b : P, ι.e (PhaseAlg.add a b) = ι.e a * ι.e b)
     (hdrop : ∀ a : P, PhaseAlg.canDrop a = true → ι.e a = 1)
@@ -578,11 +578,10 @@ adjacent_modes)` satisfies `validChoice`.
 PROVED (`…_partial`): with the repaired bookkeeping, `_simplify_perm` accepts every permutation of the
 modes that keeps the consecutive modes of each group on consecutive places, and (by
 `simplify_perm_sound`, `simplify_step_wf`) the result then has the same matrix and fits the circuit.
-MISSING: that the heuristic's output has this property (`valid_choice_of_blocks` reduces it to:
-the output is a permutation in which every group sits as a sorted block) — `_update_perm` writes every
-group (a sorted list) into consecutive slots of `left_right_perm`, later only shifts whole runs of
-filled slots, and every slot is filled exactly once; `_generate_compatible_perm` / `_update_perm` /
-`_search_empty_space` are not modelled.  The correspondence evaluates `validChoice` on every choice it observes. -/
+NO LONGER MISSING: that the heuristic's output has this property is `simplify_perm_choice_valid`
+(section H: `_generate_compatible_perm` / `_update_perm` / `_search_empty_space` are modelled exactly and
+their output is a permutation in which every group sits as a sorted block); this theorem is kept as the
+bridge from `KeepsGroups` to the result of `_simplify_perm`. -/
 theorem simplify_perm_choice_valid_partial {P : Type} [CommRing R] (ι : Interp P R) {m : ℕ}
     (hm : 0 < m) (display : Bool) (comps : List (Item P)) (r0 : ℕ) (σ ρ : List ℕ)
     (hw : ∀ it ∈ comps, it.WF ι m) (hσ : IsPermList σ.length σ) (h0 : 0 < σ.length)
@@ -609,11 +608,118 @@ example : ([1, 2, 0] : List ℕ).length = 3 ∧ isPerm [1, 2, 0] = true ∧
   subst this
   decide
 
+/-! ## H. the heuristic itself: `_search_empty_space`, `_update_perm`, `_generate_compatible_perm`
+
+`Model/C11Heur.lean` models the three functions statement by statement (`reverse` as a list of
+`Option Nat`, `none` for `-1`; the `while` loop of `_update_perm` with fuel `len(perm) + 1`), the exact
+sorted `adjacent_modes` (`adjExact`), and the deterministic simplifier obtained by feeding the
+heuristic's `left_right_perm` (`heurChoice`) into `_simplify_perm` (`simplifyPermDet`,
+`simplifyStepDet`, `simplifyDet`).  `Placed perm g`: the list `g` stands in consecutive slots of
+`perm`. -/
+
+/-- **`_update_perm(perm, init, modes)`**: on a list of `m` slots of which `C ≥ len(modes) ≥ 1` are
+free (`-1`), for every start position `init < m`: the `while` loop ends (the model's fuel
+`len(perm) + 1` is never exhausted), the modes are written as ONE block of consecutive slots, every
+block written by an earlier call is still a block (the slice shifts move whole blocks), and exactly
+`len(modes)` fewer slots are free. -/
+theorem update_perm_block {m C : ℕ} {placed : List (List ℕ)} {perm : Slots} {init : ℕ}
+    {modes : List ℕ} (hlen : perm.length = m) (hcnt : perm.count none = C)
+    (hbl : ∀ g ∈ placed, Placed perm g) (hinit : init < m) (hk1 : 1 ≤ modes.length)
+    (hkC : modes.length ≤ C) :
+    ∃ p', updatePerm perm init modes = some p' ∧ p'.length = m ∧
+      p'.count none + modes.length = C ∧ ∀ g ∈ modes :: placed, Placed p' g :=
+  updatePerm_spec hlen hcnt hbl hinit hk1 hkC
+
+/-- non-vacuity, with a shift: `[-1, 0, 3, -1]`, the two-mode group `[1, 2]` wanted at slot 1: one
+free slot is found, the blocks `[0]` and `[3]` are shifted, the result is `[1, 2, 0, 3]` -/
+example : ([none, some 0, some 3, none] : Slots).length = 4 ∧
+    ([none, some 0, some 3, none] : Slots).count none = 2 ∧
+    (∀ g ∈ [[0], [3]], Placed [none, some 0, some 3, none] g) ∧
+    updatePerm [none, some 0, some 3, none] 1 [1, 2] = some [some 1, some 2, some 0, some 3] := by
+  refine ⟨rfl, by decide, ?_, by decide⟩
+  intro g hg
+  simp only [List.mem_cons, List.not_mem_nil, or_false] at hg
+  rcases hg with rfl | rfl
+  · exact ⟨1, by decide⟩
+  · exact ⟨2, by decide⟩
+
+/-- **`_generate_compatible_perm(perm_list, adjacent_modes)`** on the groups of dependent modes of ANY
+in-between components (positive widths, inside the `m` modes; overlapping, nested, in any order) and
+any permutation `perm_list` of the modes: it returns (no slot is left at `-1`, no loop runs out), its
+first result `left_right_perm` is a permutation of the `m` modes, and every group of the repaired
+adjacency bookkeeping stands in it as a sorted block of consecutive slots. -/
+theorem generate_compatible_perm_blocks {P : Type} {m : ℕ} (hm : 0 < m) {permList : List ℕ}
+    (hpl : IsPermList m permList) (inComps : List (Item P))
+    (hw : ∀ it ∈ inComps, 0 < it.w ∧ it.r0 + it.w ≤ m) :
+    ∃ ρ, genCompatiblePerm permList (adjExact m inComps) = some ρ ∧ IsPermList m ρ ∧
+      ∀ g ∈ adjOf true m inComps, BlockPlaced ρ g :=
+  heur_blocks hm hpl inComps hw
+
+example : IsPermList 4 [2, 0, 1, 3] ∧
+    (∀ it ∈ ([⟨1, 2, .other 0⟩] : List (Item Unit)), 0 < it.w ∧ it.r0 + it.w ≤ 4) ∧
+    genCompatiblePerm [2, 0, 1, 3] (adjExact 4 ([⟨1, 2, .other 0⟩] : List (Item Unit))) =
+      some [1, 2, 0, 3] := by
+  refine ⟨by decide, by decide, by decide⟩
+
+/-- **`simplify_perm_choice_valid`** (the statement `simplify_perm_choice_valid_partial` left open):
+for every well-formed component list whose last permutation is at index `i`, the `left_right_perm`
+computed by `_simplify_perm` — `_generate_compatible_perm(invert_permutation(previous_c_list),
+adjacent_modes)[0]` — exists, is a permutation of the modes, places every group as a block and
+satisfies `validChoice` for the in-between components. -/
+theorem simplify_perm_choice_valid {P : Type} (ι : Interp P R) {m : ℕ} (hm : 0 < m)
+    (comps : List (Item P)) (hw : ∀ it ∈ comps, it.WF ι m) (hpos : ∀ it ∈ comps, 0 < it.w)
+    {i : ℕ} (hli : lastPermIdx comps = some i) :
+    ∃ ρ, heurChoice m comps = some ρ ∧ IsPermList m ρ ∧
+      (∀ g ∈ adjOf true m (comps.drop (i + 1)), BlockPlaced ρ g) ∧
+      validChoice m (comps.drop (i + 1)) ρ = true :=
+  heurChoice_valid ι hm comps hw hpos hli
+
+example : (∀ it ∈ exComps, it.WF exInterp 3) ∧ (∀ it ∈ exComps, 0 < it.w) ∧
+    lastPermIdx exComps = some 0 ∧ heurChoice 3 exComps = some [1, 2, 0] := by
+  refine ⟨?_, by decide, by decide, by decide +kernel⟩
+  intro it hit
+  simp only [exComps, List.mem_cons, List.not_mem_nil, or_false] at hit
+  rcases hit with rfl | rfl | rfl <;> simp [Item.WF, exInterp] <;> decide
+
+/-- **`_simplify_perm` with the real heuristic** (all three branches, both `display` modes): it
+returns, the result fits the circuit, every component keeps a positive width, and the matrix is the
+matrix of the input followed by the new permutation — no hypothesis on the heuristic left. -/
+theorem simplify_perm_det_sound {P : Type} [CommRing R] (ι : Interp P R) {m : ℕ} (display : Bool)
+    (comps : List (Item P)) (r0 : ℕ) (σ : List ℕ) (hw : ∀ it ∈ comps, it.WF ι m)
+    (hpos : ∀ it ∈ comps, 0 < it.w) (hσ : IsPermList σ.length σ) (h0 : 0 < σ.length)
+    (hfit : r0 + σ.length ≤ m) :
+    ∃ l, simplifyPermDet m display comps r0 σ = some l ∧ (∀ x ∈ l, x.WF ι m) ∧
+      (∀ x ∈ l, 0 < x.w) ∧ listU ι m l = listU ι m (comps ++ [⟨r0, σ.length, .perm σ⟩]) :=
+  simplifyPermDet_sound ι display comps r0 σ hw hpos hσ h0 hfit
+
+/-- **`simplify` preserves the matrix — unconditionally.**  `simplifyDet m display steps []` is the
+loop `for r, c in circuit` with the real heuristic at every non-successive permutation; the only
+input besides the circuit is the floating-point outcome of each drop test of `_simplify_PS`
+(`steps[k].2`).  For every circuit (components of positive width that fit the `m` modes), every
+sequence of rounding outcomes and both `display` modes: the loop returns a component list that fits
+the `m` modes and has the matrix of the input circuit. -/
+theorem simplify_sound {P : Type} [CommRing R] [PhaseAlg P] (ι : Interp P R)
+    (hadd : ∀ a b : P, ι.e (PhaseAlg.add a b) = ι.e a * ι.e b)
+    (hdrop : ∀ a : P, PhaseAlg.canDrop a = true → ι.e a = 1)
+    {m : ℕ} (display : Bool) (steps : List (Item P × Bool))
+    (hs : ∀ s ∈ steps, s.1.WF ι m ∧ 0 < s.1.w) :
+    ∃ l, simplifyDet m display steps [] = some l ∧ (∀ x ∈ l, x.WF ι m) ∧
+      listU ι m l = listU ι m (steps.map (·.1)) := by
+  obtain ⟨l, h1, h2, _, h4⟩ := simplifyDet_sound ι hadd hdrop display steps [] hs (by simp)
+    (fun x hx => by simp at hx)
+  exact ⟨l, h1, h2, by simpa using h4⟩
+
+/-- non-vacuity: the circuit of `exSteps` is unravelled by the real heuristic (its choice is
+`[1, 2, 0]`): two components are left -/
+example : (∀ s ∈ exSteps.map (fun s => (s.it, s.wantDrop)), s.1.WF exInterp 3 ∧ 0 < s.1.w) ∧
+    (simplifyDet 3 false (exSteps.map fun s => (s.it, s.wantDrop)) []).map List.length = some 2 := by
+  refine ⟨?_, by decide +kernel⟩
+  intro s hs
+  simp only [exSteps, List.map_cons, List.map_nil, List.mem_cons, List.not_mem_nil, or_false] at hs
+  rcases hs with rfl | rfl | rfl | rfl <;> simp [Item.WF, exInterp] <;> decide
+
 /-! ## Still NOT proved (validated by the correspondence only)
 
-* that `_generate_compatible_perm` returns a permutation in which every group is `BlockPlaced`
-  (hence `KeepsGroups`, hence `validChoice`: `valid_choice_of_blocks`,
-  `simplify_perm_choice_valid_partial`): the heuristic is not modelled;
 * `Processor.copy()` and deep copies of *nested* circuits with object identity (the reference model is
   flat: a heap of leaf objects); `copy(subs=…)` with symbolic parameters;
 * model = code (differential testing on every run). -/
